@@ -72,13 +72,93 @@ func instrument(path string) (int, int, error) {
 			list = append(list, ins{pos.Offset, fmt.Sprintf("simrt.Y(%d);", pos.Line)})
 		}
 	}
+	// pointers handed to C: (*C.T)(expr) -> (*C.T)(simrt.CPtr(expr)), and for expr = &x[0]
+	// (*C.T)(simrt.CSliceP(x, &x[0])): the simulator reports what C does to Go memory to the
+	// race detector (see simrt.CPtr)
+	isCPtrConv := func(c *ast.CallExpr) bool {
+		if len(c.Args) != 1 {
+			return false
+		}
+		pe, ok := c.Fun.(*ast.ParenExpr)
+		if !ok {
+			return false
+		}
+		st, ok := pe.X.(*ast.StarExpr)
+		if !ok {
+			return false
+		}
+		se, ok := st.X.(*ast.SelectorExpr)
+		if !ok {
+			return false
+		}
+		id, ok := se.X.(*ast.Ident)
+		return ok && id.Name == "C"
+	}
+	pure := func(e ast.Expr) bool {
+		ok := true
+		ast.Inspect(e, func(n ast.Node) bool {
+			switch n.(type) {
+			case *ast.CallExpr, *ast.FuncLit, *ast.UnaryExpr:
+				ok = false
+			}
+			return ok
+		})
+		return ok
+	}
+	cptrs := 0
+	wrapC := func(c *ast.CallExpr) {
+		e := c.Args[0]
+		a, b := fset.Position(e.Pos()).Offset, fset.Position(e.End()).Offset
+		if bytes.Contains(src[a:b], []byte("unsafe.")) {
+			return
+		}
+		if u, ok := e.(*ast.UnaryExpr); ok && u.Op == token.AND {
+			if ix, ok := u.X.(*ast.IndexExpr); ok {
+				if lit, ok := ix.Index.(*ast.BasicLit); ok && lit.Value == "0" && pure(ix.X) {
+					xa, xb := fset.Position(ix.X.Pos()).Offset, fset.Position(ix.X.End()).Offset
+					list = append(list, ins{a, "simrt.CSliceP(" + string(src[xa:xb]) + ", "}, ins{b, ")"})
+					cptrs++
+					return
+				}
+			}
+		}
+		list = append(list, ins{a, "simrt.CPtr("}, ins{b, ")"})
+		cptrs++
+	}
+	hasCPtr := func(n ast.Node) bool {
+		found := false
+		ast.Inspect(n, func(m ast.Node) bool {
+			if c, ok := m.(*ast.CallExpr); ok && isCPtrConv(c) {
+				found = true
+			}
+			return !found
+		})
+		return found
+	}
+	flushAfter := func(stmts []ast.Stmt) {
+		for _, s := range stmts {
+			switch s.(type) {
+			case *ast.ExprStmt, *ast.AssignStmt:
+				if hasCPtr(s) {
+					list = append(list, ins{fset.Position(s.End()).Offset, "; simrt.CFlush()"})
+				}
+			}
+		}
+	}
 	ast.Inspect(f, func(n ast.Node) bool {
 		switch x := n.(type) {
+		case *ast.CallExpr:
+			if isCPtrConv(x) {
+				wrapC(x)
+			}
 		case *ast.BlockStmt:
+			flushAfter(x.List)
 			add(x.List)
 		case *ast.CaseClause:
+			flushAfter(x.Body)
 			add(x.Body)
 		case *ast.CommClause:
+			flushAfter(x.Body)
 			add(x.Body)
 		}
 		return true
@@ -97,11 +177,12 @@ func instrument(path string) (int, int, error) {
 	out.Write(src[last:])
 	out.WriteString("\nvar _ = simrt.Y\n")
 	res := out.Bytes()
-	locks := bytes.Count(res, []byte("sync.RWMutex")) + bytes.Count(res, []byte("sync.Mutex"))
+	locks := bytes.Count(res, []byte("sync.RWMutex")) + bytes.Count(res, []byte("sync.Mutex")) + bytes.Count(res, []byte("sync.Once"))
 	if locks > 0 {
 		res = bytes.ReplaceAll(res, []byte("sync.RWMutex"), []byte("simrt.RWMutex"))
 		res = bytes.ReplaceAll(res, []byte("sync.Mutex"), []byte("simrt.Mutex"))
+		res = bytes.ReplaceAll(res, []byte("sync.Once"), []byte("simrt.Once"))
 		res = append(res, []byte("\nvar _ sync.Locker\n")...)
 	}
-	return len(list) - 1, locks, os.WriteFile(path, res, 0o644)
+	return len(list) - 1 - 2*cptrs, locks, os.WriteFile(path, res, 0o644)
 }
